@@ -92,12 +92,27 @@ Theorem C06_vine_swap_relabels : forall p n i, (S i < n)%nat -> forall v m,
 Proof. exact low_after_swap. Qed.
 Print Assumptions C06_vine_swap_relabels.
 
+(* the interacting configuration (still with V[i][i+1] = 0): after the exchange the two columns have the same low i+1; adding a
+   multiple of the left one to the right one gives a reduced decomposition of the new order in which the right one has low i:
+   the two bars exchange their deaths (or birth and death), as in the vineyard paper *)
+Theorem C06_vine_swap_interacting : forall p, prime p -> forall n i, (S i < n)%nat -> forall D R a b,
+  tri p n D R -> reduced p n R ->
+  (exists c, zm p (c i) /\ ~ zm p (c (S i)) /\ veq p n (R (S i)) (comb D c (S (S i)))) ->
+  (a < n)%nat -> (b < n)%nat -> is_low p n (R a) (S i) -> ~ zm p (R a i) -> is_low p n (R b) i ->
+  exists x y c1, (x < y)%nat /\ (y < n)%nat /\
+    ((x = tr i b /\ y = tr i a) \/ (x = tr i a /\ y = tr i b)) /\
+    tri p n (pmat i D) (col_add (pmat i R) y x c1) /\ reduced p n (col_add (pmat i R) y x c1) /\
+    is_low p n (col_add (pmat i R) y x c1 y) i /\ is_low p n (col_add (pmat i R) y x c1 x) (S i).
+Proof. exact vine_swap_interacting. Qed.
+Print Assumptions C06_vine_swap_interacting.
+
 (* Full statement NOT proved: for boundary matrices (strictly upper triangular before and after the exchange: neither cell is
    a face of the other) the update of the implementation - at most one column addition before the exchange
    (C06_vine_swap_preparation), and after it at most one addition between the two exchanged columns (when the preparation
    gave them the same low) and one between the two columns of the interacting configuration - always ends in a reduced
-   decomposition of the new order.  Proved above: the exchange itself, the preparation, and every configuration that needs no
-   addition afterwards.  Every state the implementation reaches is certified by check_any instead (C06_check_RU_sound). *)
+   decomposition of the new order.  Proved above: the exchange itself, the preparation, every configuration that needs no
+   addition afterwards, and the interacting configuration when no preparation was needed; missing: the configurations in which
+   the preparation (which may give columns i and i+1 the same low) has to be undone after the exchange.  Every state the implementation reaches is certified by check_any instead (C06_check_RU_sound). *)
 Definition C06_vine_swap_full : Prop :=
   forall p, prime p -> forall n i, (S i < n)%nat -> forall D R,
   (forall j r, (j <= r)%nat -> zm p (D j r)) -> (forall j r, (j <= r)%nat -> zm p (pmat i D j r)) ->
